@@ -7,6 +7,7 @@ import (
 	"path/filepath"
 	"sort"
 	"strings"
+	"sync"
 
 	"hpverif/internal/core"
 	"hpverif/internal/fsx"
@@ -78,10 +79,29 @@ func (p pathErrRenameFS) Rename(oldname, newname string) error {
 	return err
 }
 
-// openOnlyFS exposes nothing but Open.
-type openOnlyFS struct{ inner hackpadfs.FS }
+// c07errPaths: parents whose error paths are compared between view and parent (the os-backed ones are C09's and C05's)
+var c07errPaths = map[string]bool{"mem": true, "mount": true, "minimal": true}
 
-func (o openOnlyFS) Open(name string) (hackpadfs.File, error) { return o.inner.Open(name) }
+// openOnlyFS exposes nothing but Open. With a memo it remembers failed look-ups (its tree never changes: nothing but Open is
+// exposed) and hands out the SAME *PathError value every time a name fails again, as file systems with a negative cache or
+// with stored error values do.
+type openOnlyFS struct {
+	inner hackpadfs.FS
+	memo  *sync.Map // name -> *hackpadfs.PathError
+}
+
+func (o openOnlyFS) Open(name string) (hackpadfs.File, error) {
+	if o.memo != nil {
+		if e, ok := o.memo.Load(name); ok {
+			return nil, e.(*hackpadfs.PathError)
+		}
+	}
+	f, err := o.inner.Open(name)
+	if pe, ok := err.(*hackpadfs.PathError); ok && o.memo != nil {
+		o.memo.Store(name, pe)
+	}
+	return f, err
+}
 
 // partialListFS is a mem.FS whose directory handles deliver at most two entries of a listing and then fail, handing
 // out what they have together with the error (as os.ReadDir does when a directory read breaks off).
@@ -155,7 +175,7 @@ func newC07Parent(env *core.Env, cfg c07config) (*c07parent, error) {
 			p.fs = pathErrRenameFS{m}
 		}
 		if cfg.Parent == "minimal" {
-			p.fs = openOnlyFS{m}
+			p.fs = openOnlyFS{inner: m, memo: &sync.Map{}}
 		}
 		if cfg.Parent == "partial-listing" {
 			p.fs = partialListFS{m}
@@ -427,6 +447,44 @@ func c07run(env *core.Env, idx int) core.CaseResult {
 		if rv.Err != rd.Err {
 			res.Violate(sig("result:got="+rv.Err+",want="+rd.Err), fmt.Sprintf("[%s] %s through the view returned %s; %s on the parent returned %s", cfg, st, rv, sd, rd), wit)
 			break
+		}
+		// the error names the caller's name: where the parent's error names dir/x, the view's names x
+		unjoin := func(p string) (string, bool) {
+			switch {
+			case dir == ".":
+				return p, true
+			case p == dir:
+				return ".", true
+			case strings.HasPrefix(p, dir+"/"):
+				return p[len(dir)+1:], true
+			}
+			return "", false
+		}
+		if !rv.OK() && rv.Typ == rd.Typ && (st.K != "MkdirAll" && st.K != "RemoveAll") && !strings.HasPrefix(st.K, "H.") {
+			type pair struct{ what, view, parent string }
+			for _, pr := range []pair{{"path", rv.EPath, rd.EPath}, {"old", rv.EOld, rd.EOld}, {"new", rv.ENew, rd.ENew}} {
+				if want, ok := unjoin(pr.parent); ok && pr.parent != "" && c07errPaths[cfg.Parent] {
+					res.Count("error_paths_compared", 1)
+					if pr.view != want {
+						res.Violate(sig("error-"+pr.what), fmt.Sprintf("[%s] %s through the view failed with an error naming %q; %s on the parent names %q, which is %q seen from the view", cfg, st, pr.view, sd, pr.parent, want), wit)
+					}
+				}
+			}
+			if len(res.Violations) > 0 {
+				break
+			}
+		}
+		// what the parent itself answers at dir/name is not changed by having been asked through the view
+		if o1, ok := p1.fs.(openOnlyFS); ok && !rv.OK() && rv.Typ == "PathError" {
+			_, e1 := o1.Open(sd.P)
+			_, e2 := p2.fs.Open(sd.P)
+			pe1, ok1 := e1.(*hackpadfs.PathError)
+			pe2, ok2 := e2.(*hackpadfs.PathError)
+			res.Count("parent_asked_after_the_view", 1)
+			if ok1 && ok2 && (pe1.Path != pe2.Path || pe1.Op != pe2.Op) {
+				res.Violate(sig("parent-error-changed"), fmt.Sprintf("[%s] after %s failed through the view, Open(%q) on the parent itself fails with %q naming %q; on a parent that was never asked through a view it names %q", cfg, st, sd.P, pe1.Op, pe1.Path, pe2.Path), wit)
+				break
+			}
 		}
 		if !rv.OK() && st.K == "ReadDir" && rv.Data != rd.Data {
 			// a listing that broke off delivers what it had together with the error, through the view as well
